@@ -5,6 +5,6 @@ package charcode
 // Only compiled with the build tag "verif": access for the verification
 // harness, no behaviour of its own.
 
-func VerifCanMerge(r, s Range) bool                  { return canMerge(r, s) }
-func VerifMinLength(csr CodeSpaceRange) int          { return minLength(csr) }
-func VerifMatchLen(csr CodeSpaceRange, s []byte) int { return csr.matchLen(s) }
+func VerifTrCanMerge(r, s Range) bool                  { return canMerge(r, s) }
+func VerifTrMinLength(csr CodeSpaceRange) int          { return minLength(csr) }
+func VerifTrMatchLen(csr CodeSpaceRange, s []byte) int { return csr.matchLen(s) }
